@@ -386,3 +386,97 @@ def end_stats_iadd(c):
     c.ensures(**{("adjacent_" + (k or "none") + "_counts_add_up"): f"self.adjacent_bases['{k}'] == old(self.adjacent_bases)['{k}'] + other.adjacent_bases['{k}']"
                  for k in ("A", "C", "G", "T", "")})
     c.mutant("self.adjacent_bases[base] += other.adjacent_bases[base]", "self.adjacent_bases[base] = other.adjacent_bases[base]")
+
+
+# ------------------------------------------------------------------------------ EndStatistics.__iadd__: length x errors histogram
+A2 = z3.ArraySort(I, AII)
+
+
+class Hist2DT(api.T):
+    """defaultdict(length -> defaultdict(errors -> count)) in the total-map view (absent = 0) together with the enumeration
+    of its keys that iterating over it follows (outer keys, and for each outer key its inner keys)"""
+
+
+def mk_hist2d(name, inv, enumerated=True):
+    val = fresh(name + ".val", A2)
+    okeys = SeqV(fresh(name + ".okeys", AII), fresh(name + ".nokeys", I), None)
+    opos = fresh(name + ".opos", AII)
+    ikeys, ilen, ipos = fresh(name + ".ikeys", A2), fresh(name + ".ilen", AII), fresh(name + ".ipos", A2)
+    if enumerated:
+        j, l, e = z3.Int("j!h2"), z3.Int("l!h2"), z3.Int("e!h2")
+        inv += [okeys.n >= 0,
+                z3.ForAll([j], z3.Implies(z3.And(0 <= j, j < okeys.n), opos[okeys.arr[j]] == j), patterns=[okeys.arr[j]]),
+                z3.ForAll([l], ilen[l] >= 0, patterns=[ilen[l]]),
+                z3.ForAll([l, j], z3.Implies(z3.And(0 <= j, j < ilen[l]), ipos[l][ikeys[l][j]] == j), patterns=[ikeys[l][j]]),
+                # every non-zero cell is reached by the iteration
+                z3.ForAll([l, e], z3.Implies(val[l][e] != 0, z3.And(0 <= opos[l], opos[l] < okeys.n, okeys.arr[opos[l]] == l,
+                                                                      0 <= ipos[l][e], ipos[l][e] < ilen[l], ikeys[l][ipos[l][e]] == e)),
+                          patterns=[val[l][e]])]
+    return ObjV("Hist2D", {"val": val, "okeys": okeys, "opos": opos, "ikeys": ikeys, "ilen": ilen, "ipos": ipos})
+
+
+_mk2 = api.mk
+
+
+def _mk_ext2(t, name, inv):
+    if isinstance(t, Hist2DT):
+        return mk_hist2d(name, inv)
+    return _mk2(t, name, inv)
+
+
+api.mk = _mk_ext2
+_install_prev4 = install
+
+
+def install(world):
+    _install_prev4(world)
+
+    def h_items(ex, st, h, args, kwargs, node, spec):
+        f = h.fields
+        return SeqV(f["okeys"].arr, f["okeys"].n, lambda l: TupV((l, ObjV("HistRow", {"arr": f["val"][l], "keys": f["ikeys"][l], "nkeys": f["ilen"][l]}))))
+    world.handlers[("Hist2D", "items")] = h_items
+    world.handlers[("Hist2D", "__getitem__")] = lambda ex, st, h, idx, node, spec: ObjV("HistRow", {
+        "arr": h.fields["val"][idx], "keys": h.fields["ikeys"][idx], "nkeys": h.fields["ilen"][idx]})
+    world.handlers[("Hist2D", "__setitem__")] = lambda ex, st, h, idx, v, node: ObjV("Hist2D", {**h.fields, "val": z3.Store(h.fields["val"], idx, v.fields["arr"])})
+    world.handlers[("HistRow", "__getitem__")] = lambda ex, st, r, idx, node, spec: r.fields["arr"][idx]
+    world.handlers[("HistRow", "__setitem__")] = lambda ex, st, r, idx, v, node: ObjV("HistRow", {**r.fields, "arr": z3.Store(r.fields["arr"], idx, v)})
+    world.handlers[("HistRow", "__iter__")] = lambda ex, st, r, a, k, n, s: SeqV(r.fields["keys"], r.fields["nkeys"], None)
+
+
+def hist_spec(cx):
+    l, e = z3.Int("l!hs"), z3.Int("e!hs")
+
+    def merged_cells(new, old, other, k1, k2):
+        """every cell of `new` is the cell of `old` plus the cell of `other` if the iteration has passed it: outer position
+        below k1, or outer position k1 and inner position below k2"""
+        o = other.fields
+        done = z3.Or(o["opos"][l] < k1, z3.And(o["opos"][l] == k1, o["ipos"][l][e] < k2))
+        reached = z3.And(o["val"][l][e] != 0, done)
+        return z3.ForAll([l, e], new.fields["val"][l][e] == old.fields["val"][l][e] + z3.If(reached, o["val"][l][e], 0),
+                         patterns=[new.fields["val"][l][e]])
+
+    def sum_of_cells(new, old, other):
+        return z3.ForAll([l, e], new.fields["val"][l][e] == old.fields["val"][l][e] + other.fields["val"][l][e],
+                         patterns=[new.fields["val"][l][e]])
+
+    cx.spec.update(merged_cells=merged_cells, sum_of_cells=sum_of_cells, n_outer=lambda h: h.fields["okeys"].n)
+
+
+HistEndT = ObjT("EndStatistics", errors=Hist2DT())
+
+
+@contract("adapters.py", "EndStatistics.__iadd__", props=["C20", "C06"], name="EndStatistics.__iadd__:histogram")
+def end_stats_iadd_hist(c):
+    """second part: the removed-length x error-count histogram of the other chunk is added cell by cell"""
+    c.body_from = "for length, error_dict in other.errors.items()"
+    c.body_until = "return self"
+    c.types(self=HistEndT, other=HistEndT)
+    c.modifies = ["self.errors"]
+    c.spec(hist_spec)
+    c.loop(1, head="for length, error_dict in other.errors.items()",
+           inv=["0 <= __k1 <= n_outer(other.errors)", "merged_cells(self.errors, old(self.errors), other.errors, __k1, 0)"])
+    c.loop(2, head="for errors in error_dict",
+           inv=["0 <= __k1 < n_outer(other.errors) and __k2 >= 0", "merged_cells(self.errors, old(self.errors), other.errors, __k1, __k2)"])
+    c.ensures(every_cell_is_the_sum_of_the_two_cells="sum_of_cells(self.errors, old(self.errors), other.errors)")
+    c.mutant("self.errors[length][errors] += other.errors[length][errors]", "self.errors[length][errors] = other.errors[length][errors]")
+    c.mutant("self.errors[length][errors] += other.errors[length][errors]", "self.errors[errors][length] += other.errors[length][errors]")
